@@ -504,6 +504,36 @@ pub fn run(ctx: &Ctx) -> Report {
   let mut orc = Oracle::spawn();
   let mut rng = Rng::new(ctx.seed);
   rep.rule = "(a) validation: structured ASCII and JSON documents for the 9 (quantity,width) instances - <= 7 cells / ranges over <= 3 depths listed in increasing, decreasing or random order, half of them with one mutation (index = n_cells, n_cells+1, range ending one past the domain, inverted range, depth max+1..max+3 / 64 / 99 / 200 / 255, end or index = type maximum, duplicated / parent / child cell, trailing depth mark beyond the maximum) - accept/reject decision and decoded MOC compared with extracted text_accept/text_decode, accepted MOCs through extracted valid_mocb; (b) totality: character-level mutations of 9 valid text documents through 13 decoders / store loaders in-process (panic + allocation monitor), and FITS documents (range S/T/F u16/u32/u64, NUNIQ, ST v2, multi-order map and sky map samples cut to 4 blocks) with a structural sweep (every size / type keyword of the extension header set to values derived from its current value: v-1, v+1, v/2, v/4, 2v, v-4, 4, 8, 0, 1; every TFORM set to 16 neighbouring forms; every one of the first 12 data words of the valued maps set to 14 special binary64 / integer values and 7 special binary32 values: NaNs, infinities, negative, -0, subnormal, largest finite) and random single-field mutations (26 boundary values on every card, blanked / misspelt keywords, truncation at any offset, randomised or extreme data values) decoded in a child process (exit status, panic, abort, largest allocation request). non-trivial = >= 2 items (a) / any mutated document (b); distinct = distinct case line".to_string();
+  // replay mode: "MOMR <hex>", "SKYR <hex>", "FITSR <hex>" (document beside its byte-level reader model) or
+  // "FITS base=<name> mutation=... hex=<hex>" (document through the child-process decoders)
+  if let Some(line) = &ctx.replay {
+    let unhex = |h: &str| -> Vec<u8> { (0..h.len() / 2).filter_map(|i| u8::from_str_radix(&h[2 * i..2 * i + 2], 16).ok()).collect() };
+    let t: Vec<&str> = line.split_whitespace().collect();
+    if t.len() >= 2 && t[0] == "MOMR" {
+      fitsx::compare_reader_mom(&mut rep, &mut orc, &unhex(t[1]), "replay", "replay");
+    } else if t.len() >= 2 && t[0] == "SKYR" {
+      fitsx::compare_reader_sky(&mut rep, &mut orc, &unhex(t[1]), "replay", "replay");
+    } else if t.len() >= 2 && t[0] == "FITSR" {
+      fitsx::compare_reader_fits(&mut rep, &mut orc, &unhex(t[1]), "replay", "replay");
+    } else if t.len() >= 2 && t[0] == "FITS" {
+      let name = t.iter().find_map(|x| x.strip_prefix("base=")).unwrap_or("fits");
+      let doc = t.iter().find_map(|x| x.strip_prefix("hex=")).map(|h| unhex(h)).unwrap_or_default();
+      let kind = if name == "mom" || name == "skymap" { name } else { "fits" };
+      let scratch = format!("{}/c12_replay_{}", std::env::temp_dir().display(), std::process::id());
+      let _ = std::fs::create_dir_all(&scratch);
+      let (outcome, maxalloc) = run_child(kind, &doc, &scratch, 0);
+      let _ = std::fs::remove_dir_all(&scratch);
+      rep.evaluations += 1;
+      if outcome != "OK" && outcome != "ERR" {
+        rep.violation_c(&format!("FITS decoder does not return a value: {}", outcome), line, &outcome, "", "C12 (decoders are total)", "fits-crash|replay");
+      } else if maxalloc > 64 * doc.len() + (1 << 24) {
+        rep.violation_c("FITS decoder requests memory unrelated to the input size", line, &format!("largest allocation request {} bytes", maxalloc), "", "C12 (memory)", "fits-alloc");
+      }
+    } else {
+      rep.notes.push("replay: this case line is not a FITS document case; re-run the tier with the same seed".to_string());
+    }
+    return rep;
+  }
   let n_val = ctx.n(6_000, 200_000);
   for _ in 0..n_val {
     validation_case(&mut rep, &mut orc, &mut rng);
